@@ -5,8 +5,8 @@ V = os.path.dirname(os.path.dirname(os.path.abspath(__file__)))
 BUILT = set(sys.argv[1:]) if len(sys.argv) > 1 else None
 
 checks = {
- "C01": dict(technique="runtime monitoring: recovered-panic / logical-step hook (step and token budgets, token order) / CPU-watchdog / guarded-buffer / stdout-stderr monitors over hostile inputs, a complete lexical-context x byte enumeration and size-parametrised stress shapes",
-             text="Hostile inputs (prefixes, token soup, byte mutations, splices, random bytes), the context x byte enumeration, every corpus/torture snippet, scaled valid programs, line sweeps and 482 size-parametrised shapes (32 hand-written + a run of each of 30 bytes/units inside each of 15 lexical states) x versions of both families x {callback, nil}: every Parse call runs under recover, under the verif step/token budget hooks (a hang is a logical-step overrun), a per-case CPU watchdog with isolated confirmation, a canary-guarded input array and an fstat of stdout/stderr; hook step counts on k-fold replications and CPU time at n vs 8n check proportionality (three confirmations, else inconclusive).",
+ "C01": dict(technique="runtime monitoring: recovered-panic / logical-step hook (step and token budgets, token order) / CPU-watchdog / guarded-buffer / stdout-stderr monitors over hostile inputs, two complete enumerations (lexical context x byte; torture snippet x position x inserted byte) and size-parametrised stress shapes",
+             text="Hostile inputs (prefixes, token soup, byte mutations, splices, random bytes), the context x byte enumeration, the snippet x position x inserted-byte enumeration, every corpus/torture snippet, scaled valid programs, line sweeps and 482 size-parametrised shapes (32 hand-written + a run of each of 30 bytes/units inside each of 15 lexical states) x versions of both families x {callback, nil}: every Parse call runs under recover, under the verif step/token budget hooks (a hang is a logical-step overrun), a per-case CPU watchdog with isolated confirmation, a canary-guarded input array and an fstat of stdout/stderr; hook step counts on k-fold replications and CPU time at n vs 8n check proportionality (three confirmations, else inconclusive).",
              note="Trusted: the verif hooks bound all non-advancing lexer work (sites listed in DESIGN §3); Go runtime bounds checks turn memory errors into panics.", ref="§6 C01"),
  "C02": dict(technique="runtime monitor: byte-equality oracle on print(parse(src)) with provenance writer, over generated/hostile/corpus sources; file-equality oracle on directories rewritten by the real CLI (-pb)",
              text="Every input of the workload that parses with zero errors is printed and compared byte for byte with the source, under every version; the provenance writer localises the first differing chunk; the real CLI (-pb) is run over generated directories of silently parsing files (HTML/shebang/open-tag starts, every ending; 5 versions; GOMAXPROCS 1/2/16) and every file must be left byte-identical.",
@@ -20,29 +20,29 @@ checks = {
  "C05": dict(technique="runtime monitor: node span oracle (min/max token offsets of the subtree, documented conventions) on error-free parses",
              text="For every node of every error-free tree of the workload: start/end = first/last own token under the documented conventions, nesting, sibling order, lines.",
              note="Conventions encoded are exactly those in the property text and DESIGN §6 C05.", ref="§6 C05"),
- "C06": dict(technique="runtime monitor over recorded error-callback event sequences; guaranteed-breaking edits (counting argument, PHP 5 compile-time errors, unterminated last heredoc) as fault injection; callback-vs-nil and nested-parse (re-entrancy) differential monitors",
-             text="Valid generated programs with an edit that is invalid by a bracket/operator counting argument must deliver >= 1 error, as must PHP 5 compile-time errors (trait extends/implements, reference key) and a lengthened closing label of the last heredoc; every delivered error is checked for message, range, line, order; callback vs nil trees compared by full fingerprint; the real CLI (-e -p) over directories of malformed files must print, per file, exactly the errors delivered for that file alone.",
+ "C06": dict(technique="runtime monitor over recorded error-callback event sequences; guaranteed-breaking edits (counting argument, deleted mandatory operands, PHP 5 compile-time errors, unterminated last heredoc) as fault injection; nesting depth up to 70 000 as a stress dimension; callback-vs-nil and nested-parse (re-entrancy) differential monitors",
+             text="Valid generated programs with an edit that is invalid by a bracket/operator counting argument must deliver >= 1 error, as must PHP 5 compile-time errors (trait extends/implements, reference key) and a lengthened closing label of the last heredoc, and programs from which a mandatory operand (catch variable, condition, right side of an assignment, class of new, member name ...; 27 node.role rules) was deleted; nesting constructs 60..70 000 deep must parse silently and completely when valid and deliver an error with one closer removed or one opener doubled; every delivered error is checked for message, range, line, order; callback vs nil trees compared by full fingerprint; the real CLI (-e -p) over directories of malformed files must print, per file, exactly the errors delivered for that file alone.",
              note="'Invalid' is only asserted for edits invalid by construction.", ref="§6 C06"),
- "C07": dict(technique="runtime monitor: prefix-statement equality oracle, ordered-subsequence oracle on multi-error files, and provenance checker on printed recovery trees",
-             text="Statement lists with a benign malformed statement inserted: preceding statements must equal their stand-alone parse (tokens, positions), following ones must be present; burst cases with up to 90 malformed statements between well-formed ones (top level or function body), all of which must be found again in order; every tree returned with errors is printed through the provenance writer: only source chunks, once, in order.",
+ "C07": dict(technique="runtime monitor: prefix-statement equality oracle, ordered-subsequence oracle on multi-error files (in 16 list contexts incl. closures inside interpolations), prefix oracle on truncated programs, and provenance checker on printed recovery trees",
+             text="Statement lists with a benign malformed statement inserted: preceding statements must equal their stand-alone parse (tokens, positions), following ones must be present; burst cases with up to 90 malformed statements between well-formed ones (top level, or inside one of 15 wrappers: function/method/closure bodies, blocks, alternative-syntax, try/finally bodies, closures written inside six interpolation forms), all of which must be found again in order; programs cut off behind a PRNG token: if a tree is returned, the complete top-level statements before the cut are its first statements, identical to the clean parse; every tree returned with errors is printed through the provenance writer: only source chunks, once, in order.",
              note="Statement lists only (member lists have no error production).", ref="§6 C07"),
  "C08": dict(technique="runtime monitor: metamorphic structure-equality oracle across trivia layouts of one abstract program",
              text="Each generated program is rendered under many trivia layouts (none/space/tab/LF/CRLF/CR/comments) permitted by PHP; all layouts must parse silently to the same structure projection.",
              note="Trusted: the gap table of where PHP permits trivia.", ref="§6 C08"),
  "C09": dict(technique="runtime monitor: reference-model oracle for version acceptance/order on a full grid, differential monitor across versions of one class on hostile inputs",
-             text="Full (major,minor) grid incl. 2^31, k*2^32+small, 2^63, 2^64-1: Validate/Parse acceptance, error value, nil tree, all order relations vs numeric tuple order; version strings vs reference parse (and parsed again after the caller edited the first value); hostile/valid inputs under all versions of each class and nil version vs 7.4 compared by full fingerprint and errors.",
+             text="Full (major,minor) grid incl. 2^31, k*2^32+small, 2^63, 2^64-1: Validate/Parse acceptance (eight inputs per cell incl. empty and nil, with and without callback), error value, nil tree, all order relations vs numeric tuple order; version strings vs reference parse (and parsed again after the caller edited the first value); hostile/valid inputs under all versions of each class and nil version vs 7.4 compared by full fingerprint and errors; every input also under one unsupported version (out-of-range error, no tree, silent callback).",
              note="The grid is finite and enumerated completely; inputs are sampled.", ref="§6 C09"),
  "C10": dict(technique="runtime monitor: differential full-fingerprint oracle between the PHP5 and PHP7 grammars on generated common-subset programs",
              text="Common-subset programs (no PHP7-only syntax, no uniform-variable-syntax regroupings) in many layouts (every 40th program spans several 1024-entry pool blocks) are parsed under 5.x and 7.x; kinds, values, tokens, free-floating content and positions must be identical.",
              note="Trusted: the generator's definition of the common subset (DESIGN §6 C10 scope decision).", ref="§6 C10"),
- "C11": dict(technique="Go race detector (twin run from a -race build, Gosched injection at the lexer hooks) over batches of concurrent pipelines; result equality against the sequential run computed afterwards; measured interleaving diversity; the real CLI under -race; sequential predecessor-independence monitor (Parse(X) repeated after offset-aligned predecessors)",
-             text="Batches of 2..32 goroutines x GOMAXPROCS {1,2,4,16} run parse/print/dump/traverse/resolve/format pipelines on different inputs, concurrent phase first and the sequential baseline afterwards in the same process; every result must equal the baseline; the -race twin reports de-duplicated race reports as violations and runs the CLI worker pool over a generated directory (-d -r -e -p -pb), comparing rewritten files and the multiset of dumps with the results obtained alone; every fourth case re-parses one input after each of a list of predecessors (itself, truncations, escaped-byte variants sharing its offsets, unrelated inputs) and requires the first result every time.",
+ "C11": dict(technique="Go race detector (twin run from a -race build, Gosched injection at the lexer hooks) over batches of concurrent pipelines; result equality against the sequential run computed afterwards; measured interleaving diversity; the real CLI under -race; sequential predecessor-independence monitor (Parse(X) repeated after offset-aligned predecessors); exactly-once presentation monitor for one Traverser shared by all goroutines; failing writers as injected faults",
+             text="Batches of 2..32 goroutines x GOMAXPROCS {1,2,4,16} run parse/print/dump/traverse/resolve/format pipelines (incl. a dump and a print into a writer that fails after a few bytes) on different inputs, concurrent phase first and the sequential baseline afterwards in the same process; every result must equal the baseline; the -race twin reports de-duplicated race reports as violations and runs the CLI worker pool over a generated directory (-d -r -e -p -pb), comparing rewritten files and the multiset of dumps with the results obtained alone; every fourth case re-parses one input after each of a list of predecessors (itself, truncations, escaped-byte variants sharing its offsets, unrelated inputs) and requires the first result every time; after each batch one shared Traverser walks all trees of the batch concurrently (counting visitor: every node exactly once; race twin: stateless visitor).",
              note="The race detector only sees interleavings that occur; diversity is measured and reported.", ref="§6 C11"),
  "C12": dict(technique="runtime monitor: recording visitor vs reflection pre-order oracle, exhaustive over node kinds x child-slot subsets, plus parsed trees",
              text="Every node kind of ast.Visitor x slot subsets (all 2^k for k<=12) traversed with a recording visitor and compared with the reflection pre-order; parsed trees additionally checked for shared node objects and sibling source order.",
              note="Trusted: reflection walker (field declaration order = slot order), generated recording visitor.", ref="§6 C12"),
- "C13": dict(technique="runtime monitor: pointer-level fingerprint and output-stability oracle over PRNG operation histories (two printer configurations, subtree print, four dump option sets, traversals, resolver); race-detector twin with two concurrent readers of one tree",
-             text="PRNG histories over {print, dump x4, traverse(null), traverse(resolver), Accept(null)} on parsed trees: pointer-level fingerprint and guarded source must be unchanged after every operation and every output must equal the fresh-tree output.",
+ "C13": dict(technique="runtime monitor: pointer-level fingerprint and output-stability oracle over PRNG operation histories (two printer configurations, subtree print, four dump option sets, traversals, resolver, dump/print into failing writers; half of the histories through long-lived Dumper/Traverser objects); race-detector twin with two concurrent readers of one tree",
+             text="PRNG histories over {print x3, dump x4, traverse(null), traverse(recording), resolve, Accept(null), dump and print into a failing writer} on parsed trees, for half of them with the worker's long-lived Dumper/Traverser objects: pointer-level fingerprint and guarded source must be unchanged after every operation and every output must equal the fresh-tree output.",
              note="Fingerprint covers every exported field reachable by reflection incl. slice len/cap and data pointers.", ref="§6 C13"),
  "C14": dict(technique="runtime monitor: reference-model oracle (independent implementation of PHP name resolution) over generated namespace programs; per-file name-multiset oracle on the output of the real CLI",
              text="Generated programs with namespaces, use/group-use/aliases in PRNG letter case and references in every resolvable position: ResolvedNames must equal the reference resolver's map (missing, extra, wrong); the real CLI (-r -p) over directories of such programs must print, per file, the names the resolver yields for that file alone.",
@@ -51,13 +51,13 @@ checks = {
              text="Every node kind x slot subsets with unique marker tokens/free-floating/leaves/separators: output must contain exactly the present markers in slot order, default separators where tokens are missing, and only PHP lexemes otherwise; parsed trees with one subtree replaced must print identically outside it; a token given a new value (position untouched) must print as the source with exactly that text replaced; a statement replaced by a token-less one (also right after inline HTML nested in blocks) must leave everything outside it unchanged.",
              note="Trusted: field order = source order (monitored on parsed trees by C04/C12).", ref="§6 C15"),
  "C16": dict(technique="runtime monitor: dump read back with go/parser and compared field by field with a reflection walk (token ids evaluated against the constant declarations), exhaustive over node kinds x slot subsets x 4 option sets, plus parsed trees (half of them through long-lived dumpers that have dumped other trees before)",
-             text="Every node kind x slot subsets (marker values incl. bytes that need quoting, unique positions) x {tokens,positions} option sets, plus parsed trees: valid Go, type, labels, presence, content, exclusion by options.",
+             text="Every node kind x slot subsets (marker values incl. bytes that need quoting, unique positions) x {tokens,positions} option sets, plus parsed trees: valid Go, type, labels, presence, content, exclusion by options; a long-lived dumper's text must equal a new dumper's byte for byte; a node object standing twice in a list is rendered twice.",
              note="Trusted: go/parser as the definition of valid Go syntax.", ref="§6 C16"),
  "C17": dict(technique="runtime monitor: format/print/reparse round-trip structure oracle, idempotence and whitespace-layout-invariance oracles over generated programs, with reduction of a failing program to its focal construct",
-             text="Unit programs (one focal kind, one slot configuration) and composites: format+print must re-parse silently to the same structure, be identical across whitespace layouts, and be a fixed point; scaled programs (one construct repeated or nested up to 60 times, 65 shapes) pass through the single-source checks.",
+             text="Unit programs (one focal kind, one slot configuration) and composites: format+print must re-parse silently to the same structure, be identical across whitespace layouts, and be a fixed point; heredoc statements (7.3+, indented closing labels, binary prefix) included; scaled programs (one construct repeated or nested up to 60 times, 65 shapes) pass through the single-source checks.",
              note="Known formatter defects are enumerated by signature in known-findings.jsonl.", ref="§6 C17"),
- "C18": dict(technique="runtime monitor over Pool.Get histories (pointer-distinctness and write-isolation oracle), exhaustive over a block-size grid plus long histories, pools of different sizes alive together, and several parse trees kept alive (objects pairwise distinct across trees)",
-             text="Every request count 0..4*size+3 for each block size of the grid, long histories (200k/1.5M requests) and large blocks, for both pools, single, two interleaved pools of one size and 2..5 of different sizes, plus 2..5 Parse calls (sequential or concurrent) whose trees stay alive: the monitor observes every returned pointer and re-reads every object after writes through all others.",
+ "C18": dict(technique="runtime monitor over Pool.Get histories (pointer-distinctness and write-isolation oracle), exhaustive over a block-size grid plus long histories, pools of different sizes alive together, several parse trees kept alive (objects pairwise distinct across trees, no position object held twice within a tree), and concurrent position.NewPosition calls",
+             text="Every request count 0..4*size+3 for each block size of the grid, long histories (200k/1.5M requests) and large blocks, for both pools, single, two interleaved pools of one size and 2..5 of different sizes, plus 2..5 Parse calls (sequential or concurrent) whose trees stay alive, plus position.NewPosition from 2..16 goroutines: the monitor observes every returned pointer and re-reads every object after writes through all others.",
              note="Block sizes outside the grid are not observed.", ref="§6 C18"),
 }
 
